@@ -35,14 +35,14 @@ def is_total(t, weight):
     """failure-on-overflow running sum of `weight`, starting at 0"""
     for a in alts(t):
         a = core(a)
-        if is_zero(a) or a[0] == 'mu':
+        if is_zero(a) or is_mu(a):
             continue
         ab = checked('Add', a)
         if ab is None or core(ab[1]) != weight:
             return False
         for b in alts(ab[0]):
             b = core(b)
-            if is_zero(b) or b[0] == 'mu':
+            if is_zero(b) or is_mu(b):
                 continue
             if not is_total(b, weight):
                 return False
